@@ -114,3 +114,128 @@ def judge(op, impl_out, spec_out):
 
 def nontrivial(op, out):
     return c01.nontrivial(op, "H | " + out)
+
+
+# ------------------------------------------------------------------ the same command again (cli.repeat)
+# "… and repeating the same command on the same files yields identical output": command A, then a related command B
+# (A with another aggregator / bin type / threshold / -T / axis / legend …), then A again, all in ONE process through the
+# real verif.driver.run; the csv text of the first and the third run must be byte-identical (every 4th op also runs A
+# twice in a row first).  State that survives
+# a command — a module-level cache of metric objects (seeded change C18g), an unseeded random generator (repaired:
+# dc3c38f), a class attribute used as a default — shows up here.  The model's answer is the constant "same"
+# (C18_history_independent is the theorem about the Data object; the command line on top of it holds no state in the
+# model because there is none to hold).
+_REP_A = [("det", ["-m", "mae"]), ("det", ["-m", "obs"]), ("det", ["-m", "fcst"]), ("det", ["-m", "bias"]),
+          ("det", ["-m", "rmse", "-x", "location"]), ("det", ["-m", "corr"]), ("det", ["-m", "ets", "-r", "1"]),
+          ("det", ["-m", "within", "-r", "0,2"]), ("prob", ["-m", "pit"]), ("prob", ["-m", "pithistdev"]),
+          ("prob", ["-m", "bs", "-r", "1"]), ("prob", ["-m", "quantilescore", "-q", "0.5"]), ("det", ["-m", "mae", "-x", "time"]),
+          ("ens", ["-m", "bs", "-r", "1"]), ("det", ["-m", "obsfcst"])]
+_REP_B = [["-agg", "max"], ["-agg", "0.9"], ["-agg", "count"], ["-b", "above="], ["-T", "2"], ["-x", "month"],
+          ["-leg", "P,Q,R"], ["-obsrange", "0,3"], ["-acc"], ["-x", "leadtime", "-agg", "median"], ["-lx", "1"],
+          ["-Tagg", "max", "-T", "3"], ["-C", "CLIM"], ["-c", "CLIM"]]
+
+
+def _rep_ops(tier, rng):
+    k = 0
+    for i, (kind, a) in enumerate(_REP_A):
+        bs = _REP_B if tier != "quick" else rng.sample(_REP_B, 4)
+        for b in bs:
+            n = (k % 3) + 1
+            yield "cli.repeat", "clirep %s%dreg %s %s %d" % (kind, n, ",".join(a).replace(",-", ";-"), ",".join(b).replace(",-", ";-"), 1 if k % 4 == 0 else 0)
+            k += 1
+
+
+def _rep_argv(ds, spec):
+    from props import c19run as R
+    files, _ = R.files_of(ds)
+    args = []
+    for part in spec.split(";"):
+        toks = part.split(",", 1)
+        args.append(toks[0])
+        if len(toks) > 1:
+            v = toks[1]
+            if v == "CLIM":
+                v = files[-1]              # the last input file of the run doubles as the climatology
+            args.append(v)
+    return files, args
+
+
+def _rep_run(argv):
+    import contextlib
+    import io
+    import warnings
+    import matplotlib
+    matplotlib.use("Agg")
+    import verif.driver
+    buf = io.StringIO()
+    with warnings.catch_warnings():
+        warnings.simplefilter("ignore")
+        try:
+            with contextlib.redirect_stdout(buf), contextlib.redirect_stderr(io.StringIO()):
+                verif.driver.run(list(argv))
+            st = "ok"
+        except SystemExit as e:
+            st = "exit%s" % (0 if e.code in (0, None) else 1)
+        except Exception as e:          # a crash is C19's subject; here it only has to be the same crash
+            st = "exc:" + type(e).__name__
+    return st + "\n" + buf.getvalue()
+
+
+def _rep_impl(a):
+    ds, fresh = a[1], a[4] == "1"
+    files, A = _rep_argv(ds, a[2])
+    _, B = _rep_argv(ds, a[3])
+    cmdA = ["verif"] + files + A + ["-type", "csv"]
+    cmdB = ["verif"] + files + A + B + ["-type", "csv"]
+    first = _rep_run(cmdA)
+    if fresh:
+        again = _rep_run(cmdA)          # the same command twice in a row
+        if again != first:
+            return "diff-immediately[%s]" % again[:60].replace(" ", "_").replace("\n", "/")
+    _rep_run(cmdB)
+    third = _rep_run(cmdA)
+    if first != third:
+        fl, tl = first.split("\n"), third.split("\n")
+        j = next((i for i in range(min(len(fl), len(tl))) if fl[i] != tl[i]), min(len(fl), len(tl)))
+        return "diff@line%d[%s|%s]" % (j, (fl[j] if j < len(fl) else "<end>")[:60].replace(" ", "_"),
+                                       (tl[j] if j < len(tl) else "<end>")[:60].replace(" ", "_"))
+    return "same"
+
+
+_gen_ops_c18, _impl_c18, _judge_c18 = gen_ops, impl, judge
+_lean_op_c18 = globals().get("lean_op", lambda o: o)
+_cmp_c18 = globals().get("cmp", lambda op, x, y: x == y)
+_nontrivial_c18 = globals().get("nontrivial", lambda op, out: True)
+
+
+def gen_ops(tier, rng):
+    for s in _gen_ops_c18(tier, rng):
+        yield s
+    for s in _rep_ops(tier, rng):
+        yield s
+
+
+def impl(op):
+    return _rep_impl(op.split(" ")) if op.startswith("clirep ") else _impl_c18(op)
+
+
+def lean_op(op):
+    return "datani - - -" if op.startswith("clirep ") else _lean_op_c18(op)
+
+
+def cmp(op, impl_out, model_out):
+    return impl_out == model_out if op.startswith("clirep ") else _cmp_c18(op, impl_out, model_out)
+
+
+def judge(op, impl_out, spec_out):
+    if op.startswith("clirep "):
+        if impl_out != "same":
+            a = op.split(" ")
+            return ({"kind": "repeat"}, "verif <%s files> %s -type csv prints something else after the command with %s was run in the "
+                    "same process: %s" % (a[1], a[2].replace(";", " ").replace(",", " "), a[3].replace(";", " ").replace(",", " "), impl_out))
+        return None
+    return _judge_c18(op, impl_out, spec_out)
+
+
+def nontrivial(op, out):
+    return True if op.startswith("clirep ") else _nontrivial_c18(op, out)
